@@ -60,23 +60,14 @@ Definition field_code (f : field) : N :=
 (* [x += 1] on one counter *)
 Definition bump (f : field) (s : stats) : stats :=
   let b g := if field_code f =? field_code g then 1 else 0 in
-  {| initial_run_count := initial_run_count s + b FInitial;
-     finished_count := finished_count s + b FFinished;
-     ss_initial := ss_initial s + b FSsInitial;
-     ss_finished := ss_finished s + b FSsFinished;
-     ss_passed := ss_passed s + b FSsPassed;
-     ss_failed := ss_failed s + b FSsFailed;
-     ss_exec_failed := ss_exec_failed s + b FSsExecFailed;
-     ss_timed_out := ss_timed_out s + b FSsTimedOut;
-     passed := passed s + b FPassed;
-     passed_slow := passed_slow s + b FPassedSlow;
-     flaky := flaky s + b FFlaky;
-     failed := failed s + b FFailed;
-     failed_slow := failed_slow s + b FFailedSlow;
-     timed_out := timed_out s + b FTimedOut;
-     leaky := leaky s + b FLeaky;
-     exec_failed := exec_failed s + b FExecFailed;
-     skipped := skipped s + b FSkipped |}.
+  match s with
+  | mk_stats x0 x1 x2 x3 x4 x5 x6 x7 x8 x9 x10 x11 x12 x13 x14 x15 x16 =>
+      mk_stats (x0 + b FInitial) (x1 + b FFinished) (x2 + b FSsInitial) (x3 + b FSsFinished)
+               (x4 + b FSsPassed) (x5 + b FSsFailed) (x6 + b FSsExecFailed) (x7 + b FSsTimedOut)
+               (x8 + b FPassed) (x9 + b FPassedSlow) (x10 + b FFlaky) (x11 + b FFailed)
+               (x12 + b FFailedSlow) (x13 + b FTimedOut) (x14 + b FLeaky) (x15 + b FExecFailed)
+               (x16 + b FSkipped)
+  end.
 
 Definition bump_if (c : bool) (f : field) (s : stats) : stats := if c then bump f s else s.
 
